@@ -87,6 +87,26 @@ class C19:
             cases.append({"kind": "tee", "chunks": ch, "max_a": rng.choice([None, 1, 3, 64]), "max_b": rng.choice([None, 1, 2, 5])})
             cases.append({"kind": "mapped", "mapper": rng.choice(list(MAPPERS)), "marker": rng.choice([10, 0, 255]), "chunks": ch, "finish": "drop",
                           "max": rng.choice([None, 1, 7])})
+        # long marker-free runs: a segment is mapped as ONE unit however long it is (internal buffering limits,
+        # e.g. a flush at 8 KiB, would split it)
+        long_cases = []
+        for n in [4096, 8192, 8193, 12000]:
+            for tail in ([], [10, 116]):
+                data = [97 + (i % 23) for i in range(n)] + tail
+                how = rng.choice(["whole", "pages", "random"])
+                if how == "whole":
+                    ch = [data]
+                elif how == "pages":
+                    ch = [data[i:i + 4096] for i in range(0, len(data), 4096)]
+                else:
+                    cuts = sorted(rng.sample(range(len(data) + 1), 3))
+                    ch = [data[a:b] for a, b in zip([0] + cuts, cuts + [len(data)])]
+                long_cases.append({"kind": "mapped", "mapper": rng.choice(["prefix", "prefix", "len", "dup"]),
+                                   "marker": 10, "chunks": ch, "finish": rng.choice(["drop", "unwrap"]), "max": rng.choice([None, None, 4096])})
+        # spread over the evaluation shards (each costs about a second of coqc parsing)
+        step = max(1, len(cases) // (len(long_cases) + 1))
+        for k, lc in enumerate(long_cases):
+            cases.insert((k + 1) * step, lc)
         # commands
         scripts = []
         sizes = [0, 1, 100, PIPE - 1, PIPE, PIPE + 1, 2 * PIPE + 17, 4 * PIPE]
